@@ -978,6 +978,13 @@ def _is_optional_type(python_type: object) -> tuple[object, bool]:
         if len(non_none_types) == 1 and len(args) == 2:
             return non_none_types[0], True
 
+    # Handle Annotated[X | None, ...]: the optional marker sits inside the
+    # wrapper.  Equivalent to Annotated[X, ...] | None, so report it the same way.
+    if origin is Annotated:
+        inner, nullable = _is_optional_type(args[0])
+        if nullable:
+            return Annotated[(inner, *args[1:])], True
+
     return python_type, False
 
 
